@@ -10,6 +10,10 @@ drew — canonical (bind, attr) keys, independent of the header spelling and of 
 gives the attribute map every row's bind must carry; the implementation's binds, keyed by nodeset,
 must be exactly these maps: no attribute dropped, changed, duplicated or attached to another row,
 no bind for a row without logic whose type prescribes none, no two binds for one node.
+Phase 8: `binds.model_refs` (`Pyxv.Binds.formBindsR`: the same pipeline with the reference substitution of C03's
+`Pyxv.Refs.insertXpathsText` from the row's own node — `${name}` to any element, relative paths included; theorems
+Pyxv/Proofs/C05Refs.lean) must equal `binds.model` wherever that answers and is compared with the implementation on
+the sheets only it answers; `binds.spec_refs` (`Spec.expectedR`) is the oracle's expected map on those sheets.
 """
 
 from __future__ import annotations
@@ -390,6 +394,11 @@ def gen_form(rng, big=False, directed=None):
     attrs_pool = list(SPELL) + [c for c in CUSTOM if style == "double" or ":" not in c]
     vis_tops = [ar.name for ar in rows if ar.kind == "q" and ar.path == "/data/" + ar.name and ar.tkey in VISIBLE_TKEYS]
     used_attrs = []
+    # phase 8: in about a third of the forms with nesting, `${name}` may name any element of the form (questions,
+    # groups and repeats at any depth) — the fragment of `binds.model_refs` (Pyxv.Binds composed with Pyxv.Refs)
+    nested = [x.name for x in rows if x.kind in ("q", "begin") and x.name and not x.audit and x.in_loop is None
+              and not x.loop and x.path.count("/") > 2]
+    pool = tops + nested if nested and rng.random() < 0.35 else tops
     for ar in rows:
         if ar.kind == "end":
             continue
@@ -407,7 +416,7 @@ def gen_form(rng, big=False, directed=None):
                     if rng.random() < 0.3:
                         val[None] = gen_value(rng, a, [])  # unsuffixed column as well
                 else:
-                    val = gen_value(rng, a, tops)
+                    val = gen_value(rng, a, pool if ar.in_loop is None else tops)
                 if ar.in_loop is not None:
                     # template cells: plain strings, placeholders for the choice the copy is made for
                     if isinstance(val, dict):
@@ -500,7 +509,8 @@ def gen_form(rng, big=False, directed=None):
     else:
         choices = [{"list_name": ln, "name": n, "label": LABELS[n]} for ln in ("l1", "l2") for n in ("a", "b")]
     form = {"survey": survey, "survey_cols": header, "choices": choices}
-    return form, arows_out, {"tops": [t for t in tops if any(a.name == t for a in arows_out)], "style": style, "cols": cols}
+    return form, arows_out, {"tops": [t for t in tops if any(a.name == t for a in arows_out)], "style": style, "cols": cols,
+                             "deep": pool is not tops}
 
 
 def _referenced(rows):
@@ -564,7 +574,7 @@ def spec_rows(arows):
                         "trigger": False, "gen": "table-list-header"})
             tl = "seen"
         out.append({"path": ar.path, "tkey": ar.tkey, "logic": logic, "trigger": bool(ar.trigger), "row": ar.name,
-                    "params": ar.params})
+                    "params": ar.params, "kind": ("rep" if ar.rep else "group") if ar.kind == "begin" else "q"})
         if ar.kind == "begin" and ar.tl:
             tl = "armed"
             # the note carrying the group's label
@@ -576,6 +586,40 @@ def spec_rows(arows):
     out.append({"path": "/data/meta/instanceID", "tkey": "calculate",
                 "logic": [["readonly", "true()"], ["jr:preload", "uid"]], "trigger": False, "gen": "instanceID"})
     return out
+
+
+def spec_chains(srows):
+    """chains (name, kind of every ancestor and of the node itself) of the spec rows + the list of all elements'
+    chains: the input of `binds.spec_refs` (Spec.expectedR: C03's insert_xpaths from the row's own node)."""
+    kinds = {"/data": "group", "/data/meta": "group"}
+    for sr in srows:
+        kinds[sr["path"]] = sr.get("kind", "q")
+
+    def chain(path):
+        segs = path.strip("/").split("/")
+        return [[segs[i], kinds.get("/" + "/".join(segs[: i + 1]), "group")] for i in range(len(segs))]
+
+    paths = ["/data"]
+    for sr in srows:
+        segs = sr["path"].strip("/").split("/")
+        for i in range(2, len(segs) + 1):
+            pth = "/" + "/".join(segs[:i])
+            if pth not in paths:
+                paths.append(pth)
+    return [chain(pth) for pth in paths], [chain(sr["path"]) for sr in srows]
+
+
+def spec_expected(ctx, case):
+    """the property's expected attribute maps: Spec.expected (references to top-level questions); when that reading
+    does not cover a reference of the form, Spec.expectedR (references to any element, relative paths included)."""
+    exp = ctx.driver.call("binds.spec", root="data", tops=case["tops"], rows=case["spec_rows"])
+    if any(e is None for e in exp):
+        els, chains = spec_chains(case["spec_rows"])
+        rows = [dict(path=sr["path"], tkey=sr["tkey"], logic=sr["logic"], trigger=sr["trigger"], chain=ch)
+                for sr, ch in zip(case["spec_rows"], chains)]
+        exp = ctx.driver.call("binds.spec_refs", els=els, rows=rows)
+        ctx.count("oracle:spec-refs:" + ("outside" if any(e is None for e in exp) else "decides"))
+    return exp
 
 
 # ---------------------------------------------------------------- observation
@@ -632,6 +676,21 @@ def form_case(ctx, form, arows, meta):
     rows = [[[k, v] for k, v in row.items() if v not in (None, "")] for row in form["survey"]]
     m = ctx.driver.call("binds.model", headers=headers, rows=rows, lists=["l1", "l2"], root="data", dl="default")
     ctx.count(f"impl:{r['class']}/model:{m['outcome']}" + (":" + m["why"] if m["outcome"] == "unsupported" else ""))
+    ctx.count("fragment-toplevel-refs:" + ("inside" if m["outcome"] != "unsupported" else "outside"))
+    # phase 8: the composed model (Pyxv.Binds.formBindsR: reference substitution = C03's Refs.insertXpathsText from the
+    # row's own node).  Where the first model answers, the composed one must answer the same (model-to-model);
+    # where only the composed one answers, it is the one compared with the implementation.
+    mr = ctx.driver.call("binds.model_refs", headers=headers, rows=rows, lists=["l1", "l2"], root="data", dl="default")
+    if m["outcome"] != "unsupported":
+        ctx.count("model-refs:same-as-model")
+        if mr != m:
+            ctx.mismatch("Pyxv.Binds.formBinds vs formBindsR (composed with Pyxv.Refs)", case, m, mr)
+    else:
+        ctx.count("model-refs:" + mr["outcome"] + (":" + mr["why"] if mr["outcome"] == "unsupported" else "")
+                  + ("/deep" if meta.get("deep") else ""))
+        m = mr
+    if meta.get("deep"):
+        ctx.count("deep-refs:impl:" + r["class"] + "/model:" + m["outcome"])
     ctx.count("fragment:" + ("inside" if m["outcome"] != "unsupported" else "outside"))
     # model-to-model: Pyxv.Binds' private process_header / process_row against Pyxv.Headers (C08/C13's model)
     hb = ctx.driver.call("binds.headers_bridge", headers=headers, rows=rows, dl="default")
@@ -655,7 +714,7 @@ def form_case(ctx, form, arows, meta):
         elif m["outcome"] == "error":
             ctx.mismatch("model rejects (duplicate column), implementation accepts", case, "ok", m)
         # ---- oracle on the implementation's output
-        exp = ctx.driver.call("binds.spec", root="data", tops=meta["tops"], rows=case["spec_rows"])
+        exp = spec_expected(ctx, case)
         oracle(ctx, case, obs, exp, itext_ids(r["xform"]))
         nontrivial = any(sr["logic"] and "row" in sr for sr in case["spec_rows"])
         ctx.count("types:" + str(len({sr["tkey"] for sr in case["spec_rows"]})))
@@ -873,12 +932,15 @@ def replay(ctx, payload, bs):
             except NotWellFormed as e:
                 ctx.fail(Failure("xform-not-wellformed", str(e), case))
                 return False
-            exp = ctx.driver.call("binds.spec", root="data", tops=case["tops"], rows=case["spec_rows"])
+            exp = spec_expected(ctx, case)
             oracle(ctx, case, obs, exp, itext_ids(r["xform"]))
             rows = [[[k, v] for k, v in row.items() if v not in (None, "")] for row in form["survey"]]
             m = ctx.driver.call("binds.model", headers=form["survey_cols"], rows=rows, lists=["l1", "l2"], root="data", dl="default")
             if m["outcome"] == "ok" and [[o[0], o[1]] for o in obs] != m["binds"]:
                 ctx.mismatch("bind elements", case, obs, m["binds"])
+            mr = ctx.driver.call("binds.model_refs", headers=form["survey_cols"], rows=rows, lists=["l1", "l2"], root="data", dl="default")
+            if mr["outcome"] == "ok" and [[o[0], o[1]] for o in obs] != mr["binds"]:
+                ctx.mismatch("bind elements (composed model)", case, obs, mr["binds"])
         else:
             ctx.fail(Failure("rejected-wellformed", r["msg"][:200], case))
     return (len(ctx.failures), len(ctx.mismatches)) == before[:2] and ctx.known_seen == before[2]
